@@ -123,9 +123,11 @@ type opMeta struct {
 
 type SimOpts struct {
 	Ordered, Unordered, Transfer, V2, Alias bool
+	// DesyncClientIDs creates one extra client on chain A first, so that the two chains do not hand out identical client ids
+	DesyncClientIDs bool
 }
 
-func AllLanes() SimOpts { return SimOpts{true, true, true, true, true} }
+func AllLanes() SimOpts { return SimOpts{Ordered: true, Unordered: true, Transfer: true, V2: true, Alias: true} }
 
 // NewSim builds two chains and the requested lanes.
 func NewSim(c *kit.Check, r *kit.Rng, o SimOpts) *Sim {
@@ -135,6 +137,11 @@ func NewSim(c *kit.Check, r *kit.Rng, o SimOpts) *Sim {
 	s.Ch[0], s.Ch[1] = w.Chains[0], w.Chains[1]
 	s.ackKeys[0], s.ackKeys[1] = map[string][]byte{}, map[string][]byte{}
 	a, b := s.Ch[0].TestChain, s.Ch[1].TestChain
+	if o.DesyncClientIDs {
+		if err := ibctesting.NewPath(a, b).EndpointA.CreateClient(); err != nil {
+			panic(kit.Abort{Msg: err.Error()})
+		}
+	}
 	if o.Unordered {
 		p := ibctesting.NewPath(a, b)
 		p.Setup()
@@ -415,6 +422,8 @@ func unmarshalResp(o *kit.Outcome, i int, m proto.Message) error {
 }
 
 // respResult returns "NOOP", "SUCCESS" or "" for packet-message responses.
+func RespResult(o *kit.Outcome) string { return respResult(o) }
+
 func respResult(o *kit.Outcome) string {
 	if o.Res == nil || !o.OK() || len(o.Msgs) == 0 {
 		return ""
